@@ -17,40 +17,39 @@ Theorem C08_le_is_inclusion : forall a b,
 Proof. exact fc_le_is_inclusion. Qed.
 Print Assumptions C08_le_is_inclusion.
 
-(* a < b is the strict part, on canonical (strictly increasing) extents ... *)
+(* a < b is the strict part, on duplicate-free extents listed in any order ... *)
 Theorem C08_lt_is_strict : forall a b,
-  fc_comparable a b -> increasing (fc_extent_i a) -> increasing (fc_extent_i b) ->
+  fc_comparable a b -> NoDup (fc_extent_i a) -> NoDup (fc_extent_i b) ->
   fc_lt a b = COk (spec_lt (fc_mono a) (fc_extent_i a) (fc_extent_i b)).
 Proof. exact fc_lt_is_strict. Qed.
 Print Assumptions C08_lt_is_strict.
 
 Theorem C08_lt_is_le_and_not_eq : forall a b,
-  fc_comparable a b -> increasing (fc_extent_i a) -> increasing (fc_extent_i b) ->
+  fc_comparable a b -> NoDup (fc_extent_i a) -> NoDup (fc_extent_i b) ->
   exists l e, fc_le a b = COk l /\ fc_eq a b = COk e /\ fc_lt a b = COk (l && negb e).
 Proof. exact fc_lt_le_and_ne. Qed.
 Print Assumptions C08_lt_is_le_and_not_eq.
 
-(* ... and not on arbitrary duplicate-free tuples: (0,2) <= (2,0), they are not ==, yet not < *)
-Theorem C08_lt_needs_canonical_refuted :
+(* ... the listing order is irrelevant since repair 0ac2495 (defect D81: close_by_one_objectwise
+   lists extents in discovery order): (0,2) and (2,0) are ==, hash equally for every tuple hash,
+   are <= each other and neither is < the other *)
+Theorem C08_listing_order_irrelevant : forall TH : list nat -> Z,
   fc_comparable c02 c20 /\ NoDup (fc_extent_i c02) /\ NoDup (fc_extent_i c20) /\
-  fc_le c02 c20 = COk true /\ fc_eq c02 c20 = COk false /\ fc_lt c02 c20 = COk false.
-Proof. exact fc_lt_needs_canonical_refuted. Qed.
-Print Assumptions C08_lt_needs_canonical_refuted.
+  fc_eq c02 c20 = COk true /\ fc_ne c02 c20 = COk false /\ fc_hashv TH c02 = fc_hashv TH c20 /\
+  fc_le c02 c20 = COk true /\ fc_le c20 c02 = COk true /\ fc_lt c02 c20 = COk false.
+Proof. exact fc_listing_order_irrelevant. Qed.
+Print Assumptions C08_listing_order_irrelevant.
 
-(* finding D81: close_by_one_objectwise (a public mining function) yields FormalConcepts whose extent
-   tuple is in discovery order, e.g. (1, 0); for such concepts of ONE context the laws fail: the two
-   concepts below have the same extent as a set and are <= each other, yet they are not == *)
-Theorem C08_order_laws_need_canonical_refuted :
-  fc_comparable c02 c20 /\ NoDup (fc_extent_i c02) /\ NoDup (fc_extent_i c20) /\
-  spec_eq (fc_extent_i c02) (fc_extent_i c20) = true /\
-  fc_le c02 c20 = COk true /\ fc_le c20 c02 = COk true /\ fc_eq c02 c20 = COk false /\
-  fc_ne c02 c20 = COk true.
-Proof. exact fc_order_laws_need_canonical_refuted. Qed.
-Print Assumptions C08_order_laws_need_canonical_refuted.
+(* ... but extents must be duplicate-free: (0,0) is properly inside (0,1) with the same support *)
+Theorem C08_lt_needs_nodup_refuted :
+  fc_comparable c00 c01 /\ fc_le c00 c01 = COk true /\ fc_eq c00 c01 = COk false /\
+  spec_lt false (fc_extent_i c00) (fc_extent_i c01) = true /\ fc_lt c00 c01 = COk false.
+Proof. exact fc_lt_needs_nodup_refuted. Qed.
+Print Assumptions C08_lt_needs_nodup_refuted.
 
 (* a == b is equality of the extents as sets, and equal concepts hash equally *)
 Theorem C08_eq_is_ext_equality : forall a b,
-  fc_comparable a b -> increasing (fc_extent_i a) -> increasing (fc_extent_i b) ->
+  fc_comparable a b -> NoDup (fc_extent_i a) -> NoDup (fc_extent_i b) ->
   fc_eq a b = COk (spec_eq (fc_extent_i a) (fc_extent_i b)).
 Proof. exact fc_eq_is_ext_equality. Qed.
 Print Assumptions C08_eq_is_ext_equality.
@@ -277,7 +276,8 @@ Example C08_nonvacuous :
   D18_guard H_adler ex_K K_coll_a = true /\ D18_guard H_adler K_coll_a K_coll_b = false /\
   K_coll_a <> K_coll_b.
 Proof.
-  repeat split; try (vm_compute; reflexivity); try (apply increasingb_spec; vm_compute; reflexivity).
+  repeat split; try (vm_compute; reflexivity);
+    try (apply increasing_NoDup, increasingb_spec; vm_compute; reflexivity).
   - repeat constructor.
   - intros x [E|[E|[]]]; subst; vm_compute; lia.
   - intros E. discriminate E.
